@@ -169,6 +169,7 @@ class Outcome:
 
 
 ORDER_PRESERVING = {"_to_datetime"}
+BUILTIN_TYPE_NAMES = {"int", "float", "complex", "str", "bytes", "tuple", "list", "dict", "set", "frozenset", "bool", "object"}
 OPAQUE_PREDICATES = {"isinstance", "issubclass", "_is_number", "hasattr"}
 
 
@@ -179,6 +180,8 @@ class Interp:
                  strict_self_calls: bool = False, inline_module_functions: bool = False):
         self.hier = hier
         self.inline_module_functions = inline_module_functions
+        self.resolve_module_constants = inline_module_functions
+        self._resolving = set()
         # a self-call that is neither hooked nor inlined is a silent no-op unless strict
         self.strict_self_calls = strict_self_calls
         self.dyn = dyn
@@ -571,6 +574,18 @@ class Interp:
                 return {"None": None, "True": True, "False": False}[e.id]
             if e.id in self.globals:
                 return self.globals[e.id]
+            if e.id in BUILTIN_TYPE_NAMES:
+                return "<type %s>" % e.id
+            if self.resolve_module_constants and f is not None and e.id not in self._resolving:
+                # a module-level constant (`NAME = <expression>` assigned exactly once at top level)
+                defs = [st for st in f.module.tree.body if isinstance(st, ast.Assign) and len(st.targets) == 1
+                        and isinstance(st.targets[0], ast.Name) and st.targets[0].id == e.id]
+                if len(defs) == 1:
+                    self._resolving.add(e.id)
+                    try:
+                        return self.eval(defs[0].value, {}, f)
+                    finally:
+                        self._resolving.discard(e.id)
             return TOP
         if isinstance(e, ast.Attribute):
             base = self.eval(e.value, env, f)
